@@ -27,6 +27,7 @@ const (
 	KExport       = "export"
 	KRaw          = "raw"   // raw request (transport-fault profiles)
 	KSleep        = "sleep" // the client waits (simulated time)
+	KWalk         = "walk"  // follow the next cursors of a listing to its end, then the previous cursors back
 )
 
 type PostingSpec struct {
@@ -98,16 +99,17 @@ type Op struct {
 	// generator can know it (elements kept on accounts no other client touches)
 	Expect string `json:"expect,omitempty"`
 
-	From        string   `json:"from,omitempty"`         // import: source ledger whose export is fed in
-	ImportFrom  int      `json:"import_from,omitempty"`  // import only logs with id >= this
-	ImportTo    int      `json:"import_to,omitempty"`    // import only logs with id <= this
-	Remainder   bool     `json:"remainder,omitempty"`    // import the logs the destination does not have yet
-	ImportOrder []int    `json:"import_order,omitempty"` // import exactly the logs with these ids, in this order
-	Raw         *Request `json:"raw,omitempty"`
-	Capture     string   `json:"capture,omitempty"` // raw admin requests: remember data.id under this name ("reset": mark a reset)
-	SleepMs     int      `json:"sleep_ms,omitempty"`
-	Keep        bool     `json:"keep,omitempty"` // never removed by the minimiser (later ops depend on its answer)
-	Chunked     int      `json:"chunked,omitempty"`
+	From        string    `json:"from,omitempty"`         // import: source ledger whose export is fed in
+	ImportFrom  int       `json:"import_from,omitempty"`  // import only logs with id >= this
+	ImportTo    int       `json:"import_to,omitempty"`    // import only logs with id <= this
+	Remainder   bool      `json:"remainder,omitempty"`    // import the logs the destination does not have yet
+	ImportOrder []int     `json:"import_order,omitempty"` // import exactly the logs with these ids, in this order
+	Raw         *Request  `json:"raw,omitempty"`
+	Capture     string    `json:"capture,omitempty"` // raw admin requests: remember data.id under this name ("reset": mark a reset)
+	SleepMs     int       `json:"sleep_ms,omitempty"`
+	Walk        *WalkSpec `json:"walk,omitempty"`
+	Keep        bool      `json:"keep,omitempty"` // never removed by the minimiser (later ops depend on its answer)
+	Chunked     int       `json:"chunked,omitempty"`
 }
 
 func (o *Op) sig() string {
@@ -513,3 +515,26 @@ func sortedKeys[V any](m map[string]V) []string {
 }
 
 func u64(s string) uint64 { n, _ := strconv.ParseUint(s, 10, 64); return n }
+
+// WalkSpec: a cursor walk over one listing (C21).
+type WalkSpec struct {
+	Resource string `json:"resource"` // transactions | logs | accounts
+	PageSize int    `json:"page_size"`
+	Sort     string `json:"sort,omitempty"` // e.g. id:asc (the API's sort parameter); empty = the route's default
+	Back     bool   `json:"back,omitempty"` // then follow the previous cursors back from the last page
+	MaxPages int    `json:"max_pages,omitempty"`
+}
+
+// WalkPage is one page of a walk as the client saw it.
+type WalkPage struct {
+	Dir      string // first | next | prev
+	Status   int
+	Code     string
+	Invoke   uint64
+	Return   uint64
+	IDs      []string
+	HasMore  bool
+	Next     string
+	Previous string
+	PageSize int
+}
